@@ -1470,6 +1470,17 @@ func (c *Conn) handleQueuedPackets(ctx context.Context) error {
 	for _, p := range pkts {
 		_, err := c.processIncomingPacket(ctx, p.data, p.rAddr, nil) // don't re-enqueue
 		if err != nil {
+			var received *alertError
+			if errors.As(err, &received) && c.handshakeEstablished != nil && !c.isHandshakeCompletedSuccessfully() {
+				// An alert (a close_notify, say) that overtook the end of the
+				// peer's final flight, read back while the handshake is being
+				// completed: the peer sent it after its Finished, it must not
+				// fail the handshake that Finished completes. It counts as lost.
+				c.log.Debugf("ignored early alert: %v", err)
+
+				continue
+			}
+
 			return err
 		}
 	}
